@@ -39,6 +39,7 @@ of another height needs f+1 correct commit signers for that height, and correct 
 height they were started for (`cert_facts`, used in `step_nstep`). With several heights this is C15's finding.
 -/
 import Ssv.Proofs.QbftNodeExample
+import Ssv.Proofs.QbftIdentOld
 
 namespace Ssv.Qbft.B
 open Ssv.Qbft
@@ -150,6 +151,27 @@ theorem C01_log_reflected (hP : P.Valid) {σ : Sys P} (h : Reachable σ) : ∀ m
 
 /-- the quorum used by the system is the translated kernel's, and equals 2f+1 for every valid parameter set -/
 theorem C01_tie_kernel_quorum (hP : P.Valid) (i : Op P) : (P.cfg i).quorum = 2 * P.f + 1 := kernel_quorum P hP
+
+/-! ### regression: the validators before the identifier fix -/
+
+/-- REGRESSION (identifier confusion, fixed in /repo e1612ceed). With the validators as they were before the fix
+    (`Ssv/Proofs/QbftIdentOld.lean`: embedded round-change / prepare justifications not compared with the instance's
+    identifier) and the SAME adversary, a reachable state of the 4-operator system has two correct operators reporting
+    DIFFERENT values: operator 1 decided 7 in round 2; the Byzantine round-3 leader then justified the fresh value 8 with
+    genuine unprepared round-changes that operators 1, 2, 4 signed for another duty role, and operators 2 and 4 decided 8.
+    So `C01_agreement` is not vacuous with respect to this attack, and would be false without the identifier guards. -/
+theorem C01_identifier_regression_old_model_disagrees :
+    ∃ σ : Sys Old.regP, Old.ReachableOld σ ∧ Old.regP.Valid ∧ Old.regP.honest 0 = true ∧ Old.regP.honest 1 = true ∧
+      reported σ 0 7 ∧ reported σ 1 8 := by
+  obtain ⟨h1, h2, _⟩ := Old.reg_members
+  exact ⟨Old.regSys, Old.reg_reachable, ⟨by decide, by decide⟩, by decide, by decide, ⟨2, h1⟩, ⟨3, h2⟩⟩
+
+/-- the same Byzantine proposal is rejected by the current validators (`wrong msg identifier`) -/
+theorem C01_identifier_regression_fixed_rejects :
+    (Old.runOld (Sys.init Old.regP) (Old.regSched.take 26)).map
+        (fun σ => ((σ.ctrl 1).processMsg (Old.regP.cfg 1) Old.byzProposal).res) =
+      some (.err [.couldNotProcess, .invalidSigned, .notJustified, .rcNotValid, .wrongMsgIdentifier]) :=
+  Old.reg_fixed_rejects
 
 /-! ### non-vacuity -/
 
